@@ -131,10 +131,11 @@ class FakeSock(FakeBase):
         self.send_log = []       # (thread, nbytes_offered, nbytes_accepted)
         self.recv_log = []
         self.sent_total = 0
+        self.err_pending = None   # an asynchronous socket error (ETIMEDOUT, EHOSTUNREACH...): readable, recv raises it once
 
     # ---- readiness
     def r_ready(self):
-        return (not self.closed) and (bool(self.inq) or self.in_eof or self.in_rst)
+        return (not self.closed) and (bool(self.inq) or self.in_eof or self.in_rst or self.err_pending is not None)
 
     def w_ready(self):
         if self.closed:
@@ -150,6 +151,10 @@ class FakeSock(FakeBase):
             raise _oserr(errno.EBADF)
         if f == "EOF":
             return b""
+        if self.err_pending is not None:
+            e, self.err_pending = self.err_pending, None
+            self.world.faults_hit.append((self.fd, "recv", -1, e))
+            raise _oserr(e)
         if self.in_rst:
             raise _oserr(errno.ECONNRESET)
         if self.inq:
@@ -478,7 +483,7 @@ class BareWorld:
 
 class World:
     def __init__(self, app, adj=None, sched=None, nlisten=1, unix=False, sndbuf=1 << 20,
-                 keep_tracebacks=False, dispatcher=None):
+                 keep_tracebacks=False, dispatcher=None, map_obj=None):
         global CUR
         install()
         import waitress.channel as wc
@@ -506,7 +511,7 @@ class World:
         self.trigger_pulls = 0
         self.sndbuf = sndbuf
         self.handle_errors = []
-        self.map = {}
+        self.map = map_obj if map_obj is not None else {}
         adj = dict(adj or {})
         if sched is None:
             wc.threading = _ThreadingShimST()
